@@ -425,3 +425,10 @@ package abft
 //@   ensures  [failed] result != nil ==> idxFlushed == old(idxFlushed)
 //@   ensures  [ok] result == nil ==> idxFlushed == old(idxFlushed) + 1
 //@   ensures  [rejected] old(idxAddN) + 1 == idxAddN && !old(accept(p.Lachesis.Orderer, e)) ==> result != nil && nAddRoot == old(nAddRoot) && nApply == old(nApply) && stEpoch == old(stEpoch) && stLDF == old(stLDF) && stValidators == old(stValidators)
+//@
+//@ // ---- root registry (C33) ----
+//@ // isRootKey(k, r): k is the 40-byte table key of root record r: frame (4, big endian), validator (4, big endian), event ID (32)
+//@ spec isRootKey(k []byte, r election.RootAndSlot) bool = len(k) == 40 && be32(k[0:4]) == r.Slot.Frame && be32(k[4:8]) == r.Slot.Validator && forall(j, 0, 32, k[8 + j] == r.ID[j])
+//@ func rootRecordKey
+//@   requires r != nil
+//@   ensures  isRootKey(result, deref(r))
